@@ -194,13 +194,13 @@ Example C02_mix_nonvacuous :
     streams_of exSt [IStream 0; IStream 3; IStream 1; IHeat 512; IStream 2] <> [] /\
     sget_all exSt (streams_of exSt [IStream 0; IStream 3; IStream 1; IHeat 512; IStream 2]) = Ok ins /\
     sget st' 0 = Ok s' /\ ~ total s' == 0 /\ Forall wfs exSt /\ contracts exO /\
-    getH exO s' == 6636 + (4 # 5) + (2796 + (4 # 5)) + (7827 + (2 # 5)) + 1536 /\ sP s' == 101325.
+    getH exO s' == getH exO exA + getH exO exB + getH exO exM + (1024 + 512) /\ getH exO s' == 13624 /\ sP s' == 101325.
 Proof.
   eexists; eexists; eexists.
   split; [vm_compute; reflexivity|]. split; [vm_compute; discriminate|].
   split; [vm_compute; reflexivity|]. split; [vm_compute; reflexivity|].
   split; [vm_compute; discriminate|]. split; [exact exSt_wfs|]. split; [apply lin_contracts|].
-  split; vm_compute; reflexivity.
+  split; [vm_compute; reflexivity|]. split; vm_compute; reflexivity.
 Qed.
 
 (* exactly one non-empty inlet and Q <> 0 *)
